@@ -18,6 +18,7 @@ struct Entry {
 fn main() {
     println!("cargo:rerun-if-changed={}", SRC);
     println!("cargo:rerun-if-changed=build.rs");
+    println!("cargo::rustc-check-cfg=cfg(kyrodb_verif)");
     let text = std::fs::read_to_string(SRC).expect("read /repo/engine/src/simd.rs");
     let lines: Vec<&str> = text.lines().collect();
 
